@@ -271,3 +271,30 @@ class save_prior_state(ContractBase):
         s = c['self']
         return {'rejected-without-side-effects': And(c.cur.f('FSM._FSM__prior', s) == c.old.f('FSM._FSM__prior', s),
                                                      c.cur.f('FSM._FSM__transitioning', s) == c.old.f('FSM._FSM__transitioning', s))}
+
+
+def _priority_max_replay(model, vc):
+    """the two (optional) priorities from the solver's model, through the real Priority.max"""
+    from dawgie.tools.submit import Priority
+    OP = Opt(PRIO)
+
+    def val(t):
+        if z3.is_true(model.eval(OP.is_none(t), model_completion=True)):
+            return None
+        v = model.eval(OP.val(t), model_completion=True)
+        for m in Priority:
+            if z3.is_true(model.eval(v == PRIO.const(m.name), model_completion=True)):
+                return m
+        return None
+    a, b = val(vc.inputs['largs_0']), val(vc.inputs['largs_1'])
+    try:
+        got = Priority.max(a, b)
+    except Exception as e:
+        return {'reproduced': True, 'input': [str(a), str(b)], 'observed': '%s: %s' % (type(e).__name__, e), 'expected': 'the stronger of the two'}
+    by_rank = [Priority.TODO, Priority.DOING, Priority.CREW, Priority.NOW]
+    rk = lambda p: -1 if p is None else by_rank.index(p)
+    want = by_rank[max(rk(a), rk(b), 0)]
+    return {'reproduced': got is not want, 'input': [str(a), str(b)], 'observed': str(got), 'expected': str(want)}
+
+
+PriorityMax.replay = staticmethod(_priority_max_replay)
